@@ -3,6 +3,7 @@ import Ktm.CoreProps
 import Ktm.PersistOps
 import Ktm.Metrics
 import Ktm.Ranking
+import Ktm.Search
 /-! Line-protocol driver for the `oracle` suite (C01–C03, C04-ranking, C07, C08): the implementation's
     own `populate_space` answer is the external choice, the model (`Core.create / update / endT`,
     `Core.reload`, `Core.writeTrial / writeOracle`, `Metrics.*`, `Ranking.bestTrials`) does all the
@@ -112,6 +113,33 @@ def rankOf (st : St) (n : Nat) : List Nat :=
     | none, _ => ⟨i, false, .fin 0⟩)
   (Ranking.bestTrials (!st.minimize) ts n).map (·.id)
 
+/-- C19: the algorithm of the `search` op answers with the implementation's populate_space answers, in order -/
+def popAlg : Alg V (List (Pop V)) :=
+  { populate := fun o _ => match o.alg with | p :: r => (r, p) | [] => ([], .stop)
+    onEnd := fun a _ => a
+    scoreOf := fun l => l.getLast?.join }
+
+def attemptOf (j : Json) : Search.Attempt :=
+  match j with
+  | .arr #[.str "ret", v] => .ret ((v.getInt?).toOption)
+  | .arr #[.str "ret"] => .ret none
+  | .arr #[.str "raise"] => .raise
+  | .arr #[.str "failed"] => .failedTrial
+  | .arr #[.str "fatal"] => .fatal
+  | _ => .interrupt
+
+def popOf (p : Json) : Pop V :=
+  match (p.getObjValAs? String "status").toOption with
+  | some "RUNNING" => .run ((p.getObjValAs? String "values").toOption.getD "")
+  | some "IDLE" => .idle
+  | _ => .stop
+
+def ocStr : Outcome → String | .completed => "COMPLETED" | .invalid => "INVALID" | .failed => "FAILED"
+
+def evStr : Search.Ev → String
+  | .start id => s!"start {id}" | .ended id oc => s!"end {id} {ocStr oc}" | .stoppedEv => "stopped"
+  | .fatalEv => "fatal" | .interruptEv => "interrupt" | .abortEv => "abort" | .outOfFuel => "fuel"
+
 def handle (st : Option St) (j : Json) : Option St × String :=
     match j.getObjValAs? String "op", st with
     | .ok "init", _ =>
@@ -196,6 +224,18 @@ def handle (st : Option St) (j : Json) : Option St × String :=
     | .ok "best", some st =>
       let n := (j.getObjValAs? Nat "n").toOption.getD 1
       (some st, "best " ++ String.intercalate "," ((rankOf st n).map (pad st.width)))
+    | .ok "search", _ =>
+      -- the whole `BaseTuner.search` loop of one tuner over a scripted `run_trial`
+      let mt := (j.getObjValAs? Nat "max_trials").toOption
+      let mr := (j.getObjValAs? Nat "max_retries").toOption.getD 0
+      let mc := (j.getObjValAs? Nat "max_consec").toOption.getD 3
+      let script := match (j.getObjVal? "script").toOption with | some (.arr a) => a.toList.map attemptOf | _ => []
+      let pops := match (j.getObjVal? "pops").toOption with | some (.arr a) => a.toList.map popOf | _ => []
+      let fuel := (j.getObjValAs? Nat "fuel").toOption.getD 1000
+      let o : Oracle V (List (Pop V)) := Core.init pops mt mr mc
+      let r := Search.search popAlg fuel o script []
+      let sts := String.intercalate "," (r.1.trials.map (fun t => statusStr t.status))
+      (st, String.intercalate ";" (r.2.map evStr) ++ " | " ++ sts)
     | _, _ => (st, "bad-op")
 
 end Driver
